@@ -40,7 +40,7 @@ TGaps(cn, gi) == IF AllTargets THEN SUBSET (0..Len(cn)) ELSE {{}, 0..Len(cn), gi
 Pairs == UNION {UNION {{<<Txt(cn, gi), Txt(cn, gt)>> : gt \in TGaps(cn, gi)} : gi \in SUBSET (0..Len(cn))} : cn \in Contents}
          \cup {<<<<2, 4>>, <<4, 2>>>>, <<<<2, 1, 5>>, <<2>>>>, <<<<2>>, <<>>>>}
 Cases == {[cfg |-> c, islots |-> p[1], tslots |-> p[2], alpha |-> "cleanpair", g |-> g, seed |-> sd] :
-            c \in Trees, p \in Pairs, g \in BOOLEAN, sd \in 1..Seeds}
+            c \in Trees, p \in Pairs, g \in BOOLEAN, sd \in 0..(Seeds - 1)}
 VARIABLE x
 Init == x = 0 /\ ndJsonSerialize(IOEnv.OUT, SetToSeq(Cases))
 Next == UNCHANGED x
